@@ -259,12 +259,38 @@ func runC10(r *Report, rng *rand.Rand, thorough bool) {
 	if thorough {
 		nLists = 400
 	}
-	for i := 0; i < nLists; i++ {
+	// fixed two-member lists first (flat, both orders): a typed object next to an untyped member that carries only what it
+	// says about additional properties (the "decorated reference" shape), or only properties
+	base := mleaf{Type: "object", Props: map[string]string{"a": "s", "b": "i"}, Required: []string{"a"}}
+	presets := [][]mleaf{
+		{base, {Props: map[string]string{}, Addl: "true"}},
+		{base, {Props: map[string]string{}, Addl: "i"}},
+		{base, {Props: map[string]string{}, Addl: "s"}},
+		{base, {Props: map[string]string{"c": "s"}}},
+		{base, {Props: map[string]string{}, Addl: "false"}},
+	}
+	for i := -len(presets); i < nLists; i++ {
 		n := 1 + rng.Intn(3)
 		var members []mleaf
-		for j := 0; j < n; j++ {
+		if i < 0 {
+			members = presets[i+len(presets)]
+			n = len(members)
+		}
+		for j := 0; j < n && i >= 0; j++ {
 			m := genLeaf(rng)
 			m.Type, m.Format, m.Nullable = "object", "", false // compatible members
+			if rng.Intn(3) == 0 {
+				m.Type = "" // a member that does not say "type: object" (a decoration next to a reference)
+				r.Dist["allof-member=untyped"]++
+				if rng.Intn(2) == 0 {
+					// ... and carries nothing but what it says about additional properties
+					m.Props, m.Required = map[string]string{}, nil
+					if m.Addl == "" || m.Addl == "false" {
+						m.Addl = []string{"true", "i", "s"}[rng.Intn(3)]
+					}
+					r.Dist["allof-member=additional-properties-only"]++
+				}
+			}
 			if m.Addl == "s" || m.Addl == "i" {
 				if rng.Intn(2) == 0 {
 					m.Addl = ""
